@@ -456,6 +456,15 @@ func atpcMain(a Args) {
 				add(atpcs.Job{Session: ss, Transport: "buf", ChunkSeed: rng.Int63(), WriteFailAfter: -1, Delays: ds}, "c06-witness-control")
 			}
 		}
+		// -- C06, thorough tier: sessions that take seconds by design
+		if streams["c06"] && thorough {
+			for _, ss := range atpcs.SlowSessions() {
+				st.Sessions++
+				for _, t := range []string{"pipe", "buf"} {
+					add(atpcs.Job{Session: ss, Transport: t, ChunkSeed: rng.Int63(), WriteFailAfter: -1, TimeoutMs: 9000}, "c06-slow")
+				}
+			}
+		}
 		// -- C08: damaged streams
 		if streams["c08"] {
 			for _, fj := range atpcs.FaultJobs(rng, thorough) {
@@ -464,10 +473,28 @@ func atpcMain(a Args) {
 			}
 		}
 	}
+	// experiments: VERIF_ATP_ONLY_CLASS=c06-slow,c08-sigfail keeps only the jobs of those classes
+	if only := os.Getenv("VERIF_ATP_ONLY_CLASS"); only != "" {
+		keep := map[string]bool{}
+		for _, c := range strings.Split(only, ",") {
+			keep[strings.TrimSpace(c)] = true
+		}
+		var kept []atpcs.Job
+		newClass := map[int]string{}
+		for _, j := range jobs {
+			if keep[class[j.ID]] {
+				c := class[j.ID]
+				j.ID = len(kept)
+				newClass[j.ID] = c
+				kept = append(kept, j)
+			}
+		}
+		jobs, class = kept, newClass
+	}
 	// Jobs that take seconds by design (Close's own 5 s timeout, silent peers) are spread over the
 	// list: a worker process runs its batch sequentially.
 	{
-		slowClass := map[string]bool{"c08-sigslow": true, "c08-wfail": true, "c06-witness": true, "c08-twosessions": true}
+		slowClass := map[string]bool{"c08-sigslow": true, "c08-wfail": true, "c06-witness": true, "c08-twosessions": true, "c06-slow": true}
 		var fast, slow []atpcs.Job
 		for _, j := range jobs {
 			if slowClass[class[j.ID]] {
